@@ -4,7 +4,7 @@
 cd "$(dirname "$0")/.."
 for d in seeded/C*; do
   name=$(basename $d); pid=${name%%-*}
-  /venv/bin/python tools/seedeval.py $pid $d ${name}r > .work/regress-$name.json 2>&1
+  /venv/bin/python tools/seedeval.py $pid $(pwd)/$d ${name}r > .work/regress-$name.json 2>&1
   python3 - "$name" <<'PY'
 import json, os, shutil, sys
 name = sys.argv[1]
